@@ -398,6 +398,21 @@ func c09WriteFaults(c C09Case, op c09Op, name string, record bool, st *c09Stats)
 		if err == nil {
 			return pbt.V("c09.writefault.swallowed:"+name, "if the writer fails at any offset the operation returns a non-nil error", "%s: returned success", desc)
 		}
+		if k%3 != 0 {
+			continue
+		}
+		// the same fault on a writer that fails ONCE and works again afterwards (a deadline that was extended): the
+		// failed Write happened all the same - unless the operation really did recover and everything is on the wire
+		hs := &iox.HealingSink{FailAt: k, Short: k%2 == 0}
+		st.writeFaults++
+		err = nil
+		if pv, stack := pbt.Try(func() { err = op.write(hs) }); pv != nil {
+			return pbt.V(pbt.PanicKey("c09.writefault."+name, stack), "no panic", "%s (the writer works again after that one failure) panicked: %v\n%s", desc, pv, stack)
+		}
+		if err == nil && hs.Failed && !bytes.Equal(hs.Data, full.Buf) {
+			return pbt.V("c09.writefault.swallowed-once:"+name, "if the writer fails at any offset the operation returns a non-nil error",
+				"%s, once (later writes succeed): returned success, %d of %d bytes are on the wire", desc, len(hs.Data), len(full.Buf))
+		}
 	}
 	return nil
 }
